@@ -287,7 +287,11 @@ func init() {
 			if err != nil {
 				return "err"
 			}
-			return hx(p.CompressedBytes())
+			// the returned point is the caller's: it is used as a receiver
+			// right away (nobody else may be looking at it)
+			first := hx(p.CompressedBytes())
+			p.Double(p)
+			return first + "/" + hx(p.CompressedBytes())
 		}},
 		// ---------------- remaining public entry points on shared operands
 		{name: "Scalar arithmetic", warm: true, cold: true, run: func(fx *Fixture, o *Op, c *ctx) string {
@@ -335,7 +339,8 @@ func init() {
 			if err != nil {
 				return "err"
 			}
-			ph, err := bitcoin.PreHashSchnorrMessage("verif/conc", pick(fx.msgs, o.B))
+			// many different domain separators: each one is new to the process once
+			ph, err := bitcoin.PreHashSchnorrMessage(fmt.Sprintf("verif/conc/%d", o.Seed%48), pick(fx.msgs, o.B))
 			var signer crypto.Signer = pick(fx.sprivs, o.A)
 			pk2, _ := signer.Public().(*bitcoin.SchnorrPublicKey)
 			return fmt.Sprintf("%x/%v/%x/%s/%v", k.Bytes(), k.Verify(pick(fx.msgs, o.C), pick(fx.schSigs, o.A)), ph, errStr(err), pk2.Equal(k))
